@@ -213,7 +213,10 @@ Changed(f, i) ==
       [] i.k = "dataset" -> {i.n}                         \* fetch_values / fetch_array_attribute return None
       [] i.k = "pgcont" -> {i.n}
       [] i.k = "pgblock" -> {f.pgs[i.n].obj}
-      [] i.k = "pgattr" -> IF i.a \in {"Group Name", "ID", "Properties"} THEN {f.pgs[i.n].obj} ELSE {}
+      [] i.k = "pgattr" ->
+            IF i.a \in {"Group Name", "ID", "Properties"}
+               \/ (i.a = "Association" /\ ClsOf(f, f.pgs[i.n].obj) = "Grid2D")    \* default VERTEX, grid data are CELL
+            THEN {f.pgs[i.n].obj} ELSE {}
       [] i.k = "tattr" -> IF f.types[i.n].tk = "data" /\ i.a \in {"Description", "ID"} THEN Users(f, i.n) ELSE {}
       [] i.k \in {"tmap", "tmapattr"} -> Users(f, i.n)
       [] i.k = "rootlink" ->
